@@ -115,6 +115,13 @@ def gen_event(rng, small, big_ok):
         elif t in TEXT_METAS:
             n = pick(rng, (0, 1, 3, 127, 128) if not small else (0, 1, 3))
             s = ''.join(pick(rng, ('a', 'Z', ' ', 'é', 'ÿ', '\x00', '\x80')) for _ in range(n))
+            r = rng.random()
+            if r < 0.08:
+                # texts that begin with bytes that look like something else: a byte order mark, an end_of_track event
+                s = pick(rng, ('ï»¿', 'ï»¿', 'ÿþ', 'þÿ', 'ÿ/\x00', 'ï»')) + s
+            elif r < 0.14:
+                # texts that are not in composed normal form (stored as they are where the charset can express them)
+                s = s[:2] + pick(rng, ('e\u0301', '\u212b', 'A\u030a', '\u2126', '\u1100\u1161')) + s[2:]
             a = {'name' if t in ('track_name', 'instrument_name', 'device_name') else 'text': s}
         elif t == 'channel_prefix':
             a = {'channel': _edge(rng, 0, 255)}
@@ -421,19 +428,21 @@ class FileStore(BaseEngine):
         cs = plan.get('charset', 'latin1')
         if plan.get('bad') == 'unencodable':
             return cs
-        if plan.get('cfg') != 'roundtrip' or cs == 'latin1':
-            return 'latin1'
-        for tr in plan['tracks']:
-            for e in tr:
-                if e[0] == 'meta' and isinstance(e[2], dict):
-                    for v in e[2].values():
-                        if isinstance(v, str):
-                            try:
-                                if v.encode(cs).decode(cs) != v:
-                                    return 'latin1'
-                            except UnicodeError:
-                                return 'latin1'
-        return cs
+        return self._fit_charset(plan['tracks'], (cs, 'latin1', 'utf-8') if plan.get('cfg') == 'roundtrip'
+                                 else ('latin1', 'utf-8'))
+
+    @staticmethod
+    def _fit_charset(tracks, candidates):
+        """The first of the candidate charsets that can express every text of these event lists."""
+        texts = [v for tr in tracks for e in tr if e[0] == 'meta' and isinstance(e[2], dict)
+                 for v in e[2].values() if isinstance(v, str)]
+        for cand in candidates:
+            try:
+                if all(t.encode(cand).decode(cand) == t for t in texts):
+                    return cand
+            except UnicodeError:
+                continue
+        return 'utf-8'
 
     def _mk(self, plan):
         if plan.get('custom_meta'):
@@ -621,13 +630,14 @@ class FileStore(BaseEngine):
             raise Violation(f'roundtrip:save-raised:{type(e).__name__}',
                             f'saving storable content raised {type(e).__name__}: {e}')
         if plan.get('bystander'):
-            other = MidiFile(type=1, ticks_per_beat=96)
+            bcs = self._fit_charset(plan['bystander'], ('latin1', 'utf-8'))
+            other = MidiFile(type=1, ticks_per_beat=96, charset=bcs)
             for tr in plan['bystander']:
                 other.tracks.append(MidiTrack(build(e) for e in tr))
             omodel = [normalise([m.copy() for m in tr]) for tr in other.tracks]
             try:
                 oimg = self._save(other, 'file', disk, name='by.mid')
-                oback = self._load(oimg, 'file', disk, name='by2.mid')
+                oback = self._load(oimg, 'file', disk, name='by2.mid', charset=bcs)
             except Exception as e:
                 raise Violation(f'roundtrip:bystander-raised:{type(e).__name__}',
                                 f'saving/loading a second, unrelated file in between raised {type(e).__name__}: {e}')
